@@ -364,6 +364,26 @@ def run_case(case, part):
                         part.violation("C14/differs-from-direct-parse/%s/%s/version-arg=%s" % (name.split("(")[0], kind, "named" if version else "none"),
                                        "an entry point that was given a version interprets the content differently from stix2.parse(..., version=)",
                                        dict(case, id_class=idc, version=version, allow_custom=allow, entry=name), list(exp), list(got) + ([str(err)[:100]] if err else []))
+    # the identifier rule of the named version applies to every identifier IN the content, not only to the object's own id: references at the top level and inside
+    # the nested helper types (granular markings)
+    if cver == "2.0" and "id" in base and base.get("type") != "bundle" and "created_by_ref" in sp.classes[key]["properties"]:
+        from stix2 import MemoryStore
+        for idc, u in IDS.items():
+            if idc == "uuid4":
+                continue
+            for where, put in (("created_by_ref", lambda j: dict(j, created_by_ref="identity--" + u)), ("object_marking_refs", lambda j: dict(j, object_marking_refs=["marking-definition--" + u])),
+                               ("granular_markings.marking_ref", lambda j: dict(j, granular_markings=[{"marking_ref": "marking-definition--" + u, "selectors": ["type"]}]))):
+                j = put(copy.deepcopy(base))
+                for version in (None, "2.0"):
+                    for ename, fn in (("parse", lambda: stix2.parse(copy.deepcopy(j), version=version, allow_custom=False)), ("parse(allow_custom)", lambda: stix2.parse(copy.deepcopy(j), version=version, allow_custom=True)),
+                                      ("MemoryStore.add", lambda: MemoryStore(allow_custom=False).add(copy.deepcopy(j), version=version) or "added")):
+                        part.evaluations += 1
+                        part.transitions += 1
+                        got, err = outcome(fn)
+                        part.outcome("inner-identifier:" + got[0])
+                        if got[0] != "refused":
+                            part.violation("C14/named-2.0-accepts-non-v4-identifier/%s/in-%s" % (idc, where), "2.0 content (named or detected) is accepted with an identifier that 2.0 forbids inside it",
+                                           dict(case, id_class=idc, where=where, version=version, entry=ename), "refused", list(got))
     # SEQUENCES on one store: the same content added twice under every ordered pair of version arguments; the second call must be as strict as a direct parse
     # with ITS version argument, whatever the store already holds
     from stix2 import MemorySink, MemorySource, MemoryStore
